@@ -161,7 +161,18 @@ impl Prop for Faulted {
         note_inflight(&json!({ "faults": c.faults, "digest": c.digest }), &c.bytes);
         let r = check_load(&c.bytes);
         clear_inflight();
-        let out = r?;
+        let out = match r {
+            Ok(o) => o,
+            Err(mut f) => {
+                // keep the bytes: the tape only reproduces them while the generator is unchanged
+                let dir = crate::util::verif_dir().join("replays");
+                let _ = std::fs::create_dir_all(&dir);
+                let p = dir.join(format!("C18-{:012x}.htsvoice", c.digest & 0xffff_ffff_ffff));
+                let _ = std::fs::write(&p, &c.bytes);
+                f.message = format!("{} [file saved as {}; re-run with: check C18 --replay-bytes <file>]", f.message, p.display());
+                return Err(f);
+            }
+        };
         let mut rep = Report::new();
         rep.nontrivial = !out.loaded || c.nfaults > 1;
         rep.class(if out.loaded { "result:Ok" } else { "result:Err" });
